@@ -58,6 +58,9 @@ func checkC08(c *Ctx) {
 	c.cloneBeforeMutate()
 	c.forwardClearsRetainFlag()
 	c.pruneGuards()
+	// the retained tree is read and updated under its own lock
+	c.topicStoreLocking()
+	lockBalance(c, func(cl string) bool { return strings.HasPrefix(cl, "topics.") }, "topic-store")
 	if sub := c.subscribeHandler(); sub != nil {
 		g := c.handlerGraph()
 		if cs := r.caseOf("SubscribeMessage"); cs != nil {
